@@ -113,9 +113,11 @@ def plan(idx, rng):
         flags['internals'] = rng.choice([1, 2])
     if hazard and mode in OUT and rng.random() < 0.5:
         flags['regions'] = 0         # the hazard region alone
-    if hazard and mode in EXT and rng.random() < 0.5:
-        flags['internals'] = 0
     return mode, hazard, flags
+
+
+class ParseFailure(Exception):
+    """the frontend could not read the generated program (not the business of this property)"""
 
 
 def transform(case, mode):
@@ -124,8 +126,11 @@ def transform(case, mode):
     from loki.transformations.extract import ExtractTransformation
     from loki.transformations.extract.outline import outline_pragma_regions
     from loki.transformations.extract.internal import extract_internal_procedures
-    t = Sourcefile.from_source(case.files[0][1])
-    o = Sourcefile.from_source(case.files[1][1], definitions=t.definitions)
+    try:
+        t = Sourcefile.from_source(case.files[0][1])
+        o = Sourcefile.from_source(case.files[1][1], definitions=t.definitions)
+    except Exception as e:  # pylint: disable=broad-except
+        raise ParseFailure(f'{type(e).__name__}: {str(e)[:200]}') from e
     before = [(case.files[0][0], t.to_fortran()), (case.files[1][0], o.to_fortran())]
     if case.files[1][0] == 'kern.F90':
         nbefore = len(o.subroutines)
@@ -156,6 +161,9 @@ def evaluate(case, mode, wd, counters):
            'new': 0}
     try:
         before, after, nnew = transform(case, mode)
+    except ParseFailure as e:
+        out.update(outcome='inconclusive', detail=f'frontend failed on the generated program: {e}')
+        return out
     except Exception as e:  # pylint: disable=broad-except
         out.update(outcome='violation', symptom='exception', exc=e,
                    detail=f'{type(e).__name__}: {str(e)[:300]} @{tfdiff.innermost_loki_frame(e)}')
